@@ -22,13 +22,13 @@ def merge(tokens):
     return out
 
 
-_ENV = {"fmt": {}, "clos": {}}
+_ENV = {"fmt": {}, "clos": {}, "lists": {}}
 
 
 def _collect_env(n):
     """locals that only hold pre-formatted text (`let flags = format!(..)`) and local closures: both are inlined where they are used,
     so that hoisting a fragment into a local or into a local closure does not change the token sequence"""
-    fmt, clos = {}, {}
+    fmt, clos, lists = {}, {}, {}
     for x in sir.walk(n):
         if x.get("k") == "local" and x["pat"].get("k") == "p_ident" and x.get("init") is not None:
             fc = sir.format_call(x["init"])
@@ -36,7 +36,48 @@ def _collect_env(n):
                 fmt[x["pat"]["name"]] = fc
             elif x["init"].get("k") == "closure":
                 clos[x["pat"]["name"]] = x["init"]
-    return {"fmt": fmt, "clos": clos}
+            else:
+                lt = _text_list(x["init"])
+                if lt is not None:
+                    lists[x["pat"]["name"]] = lt
+    return {"fmt": fmt, "clos": clos, "lists": lists}
+
+
+def _text_list(init):
+    """`it.map(|x| format!(..)).collect()`: a list of pre-formatted fragments (joined later) -> (iterator string, element pieces)"""
+    e = init
+    if not (e.get("k") == "mcall" and e["m"] == "collect"):
+        return None
+    chain = e["recv"]
+    mp = None
+    while chain.get("k") == "mcall":
+        if chain["m"] == "map" and chain["args"] and chain["args"][0].get("k") == "closure":
+            mp = chain
+        chain = chain["recv"]
+    if mp is None:
+        return None
+    body = mp["args"][0]["body"]
+    if any(sir.write_fmt_call(y) for y in sir.walk(body)):
+        return None   # the closure writes by itself: not a pure list of fragments
+    tail = body
+    inner = {}
+    if tail.get("k") == "block" and tail["stmts"]:
+        for st_ in tail["stmts"][:-1]:
+            if st_.get("k") == "local" and st_["pat"].get("k") == "p_ident" and st_.get("init") is not None:
+                inner[st_["pat"]["name"]] = st_["init"]
+        last = tail["stmts"][-1]
+        tail = last["e"] if last.get("k") == "expr" and not last.get("semi") else tail
+    fc = sir.format_call(tail)
+    pieces = []
+    if fc is not None:
+        for p_ in fc:
+            if p_[0] == "hole" and isinstance(p_[1], dict) and p_[1].get("k") == "path" and len(p_[1]["segs"]) == 1 and p_[1]["segs"][0] in inner:
+                pieces.append(("hole", inner[p_[1]["segs"][0]], p_[2]))
+            else:
+                pieces.append(p_)
+    else:
+        pieces = [("hole", tail, "")]
+    return sir.expr_str(mp["recv"]), pieces
 
 
 def linearize(n, top=False):
@@ -63,6 +104,18 @@ def _hole(e, out, depth):
             else:
                 _hole(p[1], out, depth + 1)
         return
+    if isinstance(e, dict):
+        x = sir.strip_ref(e)
+        if x.get("k") == "mcall" and x["m"] == "join" and x["recv"].get("k") == "path" and len(x["recv"]["segs"]) == 1 and x["recv"]["segs"][0] in _ENV.get("lists", {}) and depth < 3:
+            it_s, pieces = _ENV["lists"][x["recv"]["segs"][0]]
+            sub = []
+            for p in pieces:
+                if p[0] == "lit":
+                    sub.append(("lit", p[1]))
+                else:
+                    _hole(p[1], sub, depth + 1)
+            out.append(("for", it_s, merge(sub)))
+            return
     out.append(("hole", sir.expr_str(e)))
 
 
@@ -75,6 +128,8 @@ def _lin(n, out):
             _lin(s, out)
         return
     if k == "local":
+        if n["pat"].get("k") == "p_ident" and n["pat"]["name"] in _ENV.get("lists", {}):
+            return   # a list of pre-formatted fragments: emitted where it is joined
         if n.get("init") is not None:
             _lin(n["init"], out)
         return
